@@ -145,6 +145,12 @@ const (
 	// a null element in a variable value for a list-of-lists type makes gqlparser's
 	// validator.VariableValues panic (reflect on a zero Value) outside any recover of the executor.
 	QPanicNullInNestedList = "panic:variable-of-nested-list-type<-null-inner-list"
+	// an input field whose declared default is the literal null (`f: Float = null`): when the
+	// field is omitted the specification uses the default, i.e. the coerced object HAS the
+	// entry with value null; the generated unmarshalInput* injects no default (its template
+	// tests the Go value of the default, which is nil), so an Omittable field stays unset and
+	// a map-backed input has no key.
+	QNullFieldDefaultNotApplied = "deviation:input-field-default-null-is-not-applied"
 )
 
 // Quirks is the set of switched-on deviations.
@@ -530,8 +536,16 @@ func (r *Ref) coerceJSON(t *ast.Type, j any, path []string, fail func([]string))
 		for _, fd := range def.Fields {
 			fv, has := m[fd.Name]
 			switch {
+			case !has && fd.DefaultValue != nil && fd.DefaultValue.Kind == ast.NullValue && r.Q[QNullFieldDefaultNotApplied]:
+				// deviation: no entry
 			case !has && fd.DefaultValue != nil:
-				out.O = append(out.O, SField{fd.Name, r.constant(fd.Type, fd.DefaultValue)})
+				dv, ok := r.constant(fd.Type, fd.DefaultValue)
+				if !ok {
+					fail(cp(path, fd.Name))
+					good = false
+					continue
+				}
+				out.O = append(out.O, SField{fd.Name, dv})
 			case !has && fd.Type.NonNull:
 				fail(cp(path, fd.Name))
 				good = false
@@ -551,15 +565,17 @@ func (r *Ref) coerceJSON(t *ast.Type, j any, path []string, fail func([]string))
 	panic("reference: not an input type: " + def.Name)
 }
 
-// constant coerces a schema/variable default value (a const literal, valid by schema
-// validation) to its type.
-func (r *Ref) constant(t *ast.Type, v *ast.Value) SV {
-	quiet := &Ref{Schema: r.Schema, IDKind: r.IDKind, In: Interp{true, true, true}}
+// constant coerces a schema default value (a const literal) to its type. ok=false: the
+// default does not coerce under the configured Go binding (e.g. `ID = "abc"` with ID bound
+// to int) — using the default is then a coercion failure at that position.
+func (r *Ref) constant(t *ast.Type, v *ast.Value) (SV, bool) {
+	// (deviations that concern defaults also hold inside a default: `din: DefIn = {}`)
+	quiet := &Ref{Schema: r.Schema, IDKind: r.IDKind, In: Interp{true, true, true}, Q: Quirks{QNullFieldDefaultNotApplied: r.Q[QNullFieldDefaultNotApplied]}}
 	sv, present, ok := quiet.coerceLiteral(t, v, nil, nil, func([]string) {})
 	if !ok || !present {
-		panic(fmt.Sprintf("reference: default value %s does not coerce to %s", v.String(), t.String()))
+		return SV{}, false
 	}
-	return sv
+	return sv, true
 }
 
 // ---------------------------------------------------------------------------------------
@@ -706,8 +722,16 @@ func (r *Ref) coerceLiteral(t *ast.Type, v *ast.Value, vars map[string]SV, path 
 				fv, has = val, pres
 			}
 			switch {
+			case !has && fd.DefaultValue != nil && fd.DefaultValue.Kind == ast.NullValue && r.Q[QNullFieldDefaultNotApplied]:
+				// deviation: no entry
 			case !has && fd.DefaultValue != nil:
-				out.O = append(out.O, SField{fd.Name, r.constant(fd.Type, fd.DefaultValue)})
+				dv, ok := r.constant(fd.Type, fd.DefaultValue)
+				if !ok {
+					fail(fp)
+					good = false
+					continue
+				}
+				out.O = append(out.O, SField{fd.Name, dv})
 			case !has && fd.Type.NonNull:
 				fail(fp)
 				good = false
@@ -752,6 +776,22 @@ func (r *Ref) strictVarPosition(name string, loc *ast.Type) bool {
 	return vd.DefaultValue == nil || vd.DefaultValue.Kind == ast.NullValue
 }
 
+// nullInNestedList: the literal holds a null element in a list whose element type is a list.
+func nullInNestedList(t *ast.Type, v *ast.Value) bool {
+	if t.Elem == nil || v == nil || v.Kind != ast.ListValue {
+		return false
+	}
+	for _, c := range v.Children {
+		if c.Value.Kind == ast.NullValue && t.Elem.Elem != nil {
+			return true
+		}
+		if nullInNestedList(t.Elem, c.Value) {
+			return true
+		}
+	}
+	return false
+}
+
 // Target finds the field whose arguments a request exercises: the first root field, or —
 // when that root field takes no arguments and selects an object (the probe's `box`) — the
 // first field selected on that object. prefix is the response path of the target field.
@@ -786,7 +826,18 @@ func (r *Ref) Evaluate(doc *ast.QueryDocument, rawVars map[string]any) Expect {
 		raw, has := rawVars[vd.Variable]
 		switch {
 		case !has && vd.DefaultValue != nil:
-			vars[vd.Variable] = r.constant(vd.Type, vd.DefaultValue)
+			// (a variable default is request text: it may fail to coerce, e.g. "abc" for an ID
+			// bound to int)
+			if r.Q[QPanicNullInNestedList] && nullInNestedList(vd.Type, vd.DefaultValue) {
+				r.PanicOK = true // the default goes through the same validator.VariableValues
+			}
+			quiet := &Ref{Schema: r.Schema, IDKind: r.IDKind, In: r.In, Q: r.Q}
+			dv, pres, ok := quiet.coerceLiteral(vd.Type, vd.DefaultValue, nil, path, r.failVar)
+			if !ok || !pres {
+				reqOK = false
+				continue
+			}
+			vars[vd.Variable] = dv
 		case vd.Type.NonNull && (!has || raw == nil):
 			r.failVar(path)
 			reqOK = false
@@ -825,7 +876,13 @@ func (r *Ref) Evaluate(doc *ast.QueryDocument, rawVars map[string]any) Expect {
 		}
 		switch {
 		case !has && ad.DefaultValue != nil:
-			args[ad.Name] = r.constant(ad.Type, ad.DefaultValue)
+			dv, ok := r.constant(ad.Type, ad.DefaultValue)
+			if !ok {
+				r.failField(path)
+				good = false
+				continue
+			}
+			args[ad.Name] = dv
 		case !has && ad.Type.NonNull:
 			r.failField(path)
 			good = false
